@@ -4,6 +4,7 @@ import (
 	"net"
 	"sync"
 	"sync/atomic"
+	"time"
 )
 
 // Proxy modes.
@@ -29,7 +30,14 @@ type Proxy struct {
 
 // NewProxy starts a proxy in front of target.
 func NewProxy(target string) (*Proxy, error) {
-	lis, err := net.Listen("tcp", "127.0.0.1:0")
+	var lis net.Listener
+	var err error
+	for try := 0; try < 40; try++ {
+		if lis, err = net.Listen("tcp", "127.0.0.1:0"); err == nil {
+			break
+		}
+		time.Sleep(50 * time.Millisecond)
+	}
 	if err != nil {
 		return nil, err
 	}
@@ -97,6 +105,11 @@ func (p *Proxy) accept() {
 		if err != nil {
 			c.Close()
 			continue
+		}
+		for _, x := range []net.Conn{c, up} { // no TIME-WAIT sockets (see DialOpts)
+			if tc, ok := x.(*net.TCPConn); ok {
+				tc.SetLinger(0)
+			}
 		}
 		if !p.track(c) || !p.track(up) {
 			c.Close()
